@@ -1,5 +1,6 @@
 import Driver.Codec
 import Mav.Spec.Msg
+import Mav.Spec.Writer
 /- mavdrv: one operation per line on stdin, model (and spec) answer per line on stdout. -/
 open Mav Drv
 
@@ -15,7 +16,11 @@ def DState.get (s : DState) (name : String) : Option (List DMsg) :=
   if name == "-" then none else some ((s.dialects.lookup name).getD [])
 
 def rdialect (ms : Option (List DMsg)) : Option (UInt32 → Option Codec) :=
-  ms.map (fun l id => (l.find? (·.id == id)).map (fun m => { crcExtra := m.rw.crcExtra, decode := Msg.decode m.rw }))
+  ms.map (fun l id => (l.find? (·.id == id)).map (fun m =>
+    { crcExtra := m.rw.crcExtra, decode := Msg.decode m.rw,
+      specCrcExtra := match Spec.Msg.ofGo m.st with
+        | some d => UInt8.ofNat (Spec.Msg.crcExtra d)
+        | none => m.rw.crcExtra }))
 
 def wdialect (ms : Option (List DMsg)) : WDialect :=
   ms.map (fun l id => (l.find? (·.id == id)).map (fun m => { crcExtra := m.rw.crcExtra, encode := Msg.encode m.rw }))
@@ -94,10 +99,8 @@ def step (ds : DState) (line : String) : DState × String :=
         let cfg : RCfg := { H := H, key := k, dialect := rdialect (ds.get dn) }
         let (rs, st) := readAllD cfg (s.length + 2) { cur := UInt64.ofNat c } s []
         let m := " ".intercalate (rs.map encRRes) ++ s!" cur={st.cur}"
-        if k.isSome then
-          let (rs2, st2) := readAllD { cfg with specWindow := true } (s.length + 2) { cur := UInt64.ofNat c } s []
-          m ++ "\t" ++ " ".intercalate (rs2.map encRRes) ++ s!" cur={st2.cur}"
-        else m
+        let (rs2, st2) := readAllD { cfg with specWindow := true } (s.length + 2) { cur := UInt64.ofNat c } s []
+        m ++ "\t" ++ " ".intercalate (rs2.map encRRes) ++ s!" cur={st2.cur}"
       | _, _, _ => "bad-op")
   | ["fwrite", dn, f] =>
     (ds, match decFrame f with
@@ -115,7 +118,10 @@ def step (ds : DState) (line : String) : DState × String :=
   | ["swrite", dn, ver, sys, comp, link, key, items] =>
     (ds, match ver.toNat?, u8 sys, u8 comp, u8 link, keyOf key with
       | some v, some s, some c, some l, some k =>
-        let cfg : SWCfg := { version := v, sysId := s, compId := c, linkId := l, key := k }
+        let cfg0 : SWCfg := { version := v, sysId := s, compId := c, linkId := l, key := k }
+        match swInitialize cfg0 with
+        | .error _ => "init-err"
+        | .ok cfg =>
         let d := wdialect (ds.get dn)
         let (_, outs) := (items.splitOn ";").foldl (fun (acc : SWState × List String) it =>
           match it.splitOn "@" with
@@ -125,7 +131,15 @@ def step (ds : DState) (line : String) : DState × String :=
               (st', acc.2 ++ [match r with | .ok bs => "ok:" ++ toHex bs | .error e => "err:" ++ encWErr e])
             | _, _ => (acc.1, acc.2 ++ ["bad-item"]))
           | _ => (acc.1, acc.2 ++ ["bad-item"])) ({}, [])
-        " ".intercalate outs
+        let (_, souts) := (items.splitOn ";").foldl (fun (acc : Nat × List String) it =>
+          match it.splitOn "@" with
+          | [m, t] => (match decMsg m, t.toNat? with
+            | some mm, some tt =>
+              let (n', r) := Spec.swWrite H d cfg0 acc.1 (UInt64.ofNat tt) mm
+              (n', acc.2 ++ [match r with | .ok bs => "ok:" ++ toHex bs | .error e => "err:" ++ encWErr e])
+            | _, _ => (acc.1, acc.2 ++ ["bad-item"]))
+          | _ => (acc.1, acc.2 ++ ["bad-item"])) (0, [])
+        " ".intercalate outs ++ "\t" ++ " ".intercalate souts
       | _, _, _, _, _ => "bad-op")
   | ["fix", dn, key, f] =>
     (ds, match keyOf key, decFrame f with
